@@ -188,3 +188,40 @@ pub fn circ_dist(a: f64, b: f64) -> f64 {
 pub fn joints_close_mod2pi(a: &[f64; 6], b: &[f64; 6], tol: f64) -> bool {
     (0..6).all(|i| circ_dist(a[i], b[i]) <= tol)
 }
+
+/// Robots for the threshold sweeps: a plain 6-DOF arm, 5-DOF arms (with and without flange length), a
+/// sign/offset variant with a J5 offset.
+pub fn sweep_robots() -> Vec<Parameters> {
+    let c = [0.5, 0.6, 0.55, 0.08];
+    vec![
+        make(0.15, -0.1, 0.0, c, [1; 6], [0.0; 6], 6),
+        make(0.15, -0.1, 0.0, c, [1; 6], [0.0; 6], 5),
+        make(0.15, -0.1, 0.05, [0.5, 0.6, 0.55, 0.0], [1; 6], [0.0; 6], 5),
+        make(0.0, 0.0, 0.0, c, [1, -1, 1, -1, -1, 1], [0.3, 0.0, -std::f64::consts::PI / 2.0, 0.2, 0.4, -0.6], 5),
+        make(-0.1, 0.1, 0.1, c, [-1, 1, -1, 1, -1, -1], [0.0, 0.2, 0.0, 0.0, -1.1, 0.0], 6),
+    ]
+}
+
+/// One length parameter at a time set to +-v for every v of the ladder, on an otherwise ordinary geometry:
+/// parameters that are almost, but not exactly, zero.
+pub fn tiny_param_robots(ladder: &[f64], dofs: &[i8]) -> Vec<Parameters> {
+    let mut out = Vec::new();
+    for &dof in dofs {
+        for which in 0..4 {
+            for &v in ladder {
+                for sgn in [1.0, -1.0] {
+                    let x = sgn * v;
+                    let (mut a1, mut a2, mut b, mut c4) = (0.15, -0.1, 0.0, 0.08);
+                    match which {
+                        0 => a1 = x,
+                        1 => a2 = x,
+                        2 => b = x,
+                        _ => c4 = x,
+                    }
+                    out.push(make(a1, a2, b, [0.5, 0.6, 0.55, c4], [1, 1, -1, 1, 1, 1], [0.0, 0.0, -std::f64::consts::PI / 2.0, 0.0, 0.0, 0.0], dof));
+                }
+            }
+        }
+    }
+    out
+}
